@@ -548,5 +548,8 @@ StripView(v) == [v EXCEPT !.archive = StripImp(@)]
 RestartEquiv ==
   Serving => /\ StartOK(disk)
         /\ StripView(RestartView(disk, now)) = StripView(MemAfterCatchUp(now))
+RestartEquivNow ==
+  /\ StartOK(disk)
+  /\ StripView(RestartView(disk, now)) = StripView(MemAfterCatchUp(now))
 StartAlwaysOK == StartOK(disk)
 =============================================================================
